@@ -106,6 +106,34 @@ def mc_run(spec, workdir):
     return r
 
 
+BEH_RE = re.compile(r'^<<"BEH", (".*")>>$', re.M)
+
+
+def emit_behaviours(module, cfg, workdir, outfile, workers=None, timeout=1500, xmx="8g"):
+    """spec -> impl: run TLC on a generation config whose invariant prints one line
+    <<"BEH", ToJson(...)>> per behaviour; write them as ndjson. Returns (count, mc description)."""
+    r = run_tlc(os.path.join(SPEC, module + ".tla"), os.path.join(SPEC, cfg), workdir,
+                workers=workers or NCPU, timeout=timeout, xmx=xmx)
+    if r["rc"] != 0 or r["distinct"] is None:
+        sys.stdout.write(r["out"][-5000:])
+        raise ToolError("behaviour generation %s/%s failed (rc=%s)" % (module, cfg, r["rc"]))
+    n = 0
+    seen = set()
+    with open(outfile, "w") as f:
+        for m in BEH_RE.finditer(r["out"]):
+            s = json.loads(m.group(1))  # TLA+ string literal -> JSON text
+            if s in seen:
+                continue
+            seen.add(s)
+            f.write(s + "\n")
+            n += 1
+    log("spec->impl %s [%s]: %d behaviours from %d distinct states, %.1fs" %
+        (module, cfg, n, r["distinct"], r["wall"]))
+    desc = {"module": module, "cfg": cfg, "distinct_states": r["distinct"], "states_generated": r["generated"],
+            "wall_s": round(r["wall"], 1), "behaviours_emitted": n}
+    return n, desc
+
+
 # --------------------------------------------------------------------------- drivers
 
 def run_driver_shard(fam, tier, seed, shard, nshards, outbase, extra, max_restarts=30, budget=0):
